@@ -33,7 +33,7 @@ func Background() context.Context {
 	}
 	return context.Background()
 }
-func TODO() context.Context       { return context.TODO() }
+func TODO() context.Context { return context.TODO() }
 
 type CancelFunc = context.CancelFunc
 type CancelCauseFunc = context.CancelCauseFunc
@@ -46,6 +46,7 @@ type vc struct {
 	deadline time.Time
 	hasDl    bool
 	children []*vc
+	after    []*afterFn
 	tm       *vsched.Timer
 	tok      byte
 }
@@ -106,6 +107,10 @@ func (c *vc) cancel(err, cause error) {
 	if c.tm != nil {
 		c.tm.Stop()
 	}
+	for _, a := range c.after {
+		a.run()
+	}
+	c.after = nil
 	for _, ch := range c.children {
 		ch.cancel(err, cause)
 	}
@@ -241,8 +246,49 @@ func WithValue(parent context.Context, k, v any) context.Context {
 
 func WithoutCancel(parent context.Context) context.Context { return context.WithoutCancel(parent) }
 
+// AfterFunc: f runs in a managed thread of its own once ctx is done (at once if it already is); stop reports whether it
+// prevented that. Modelled for contexts made by this package (every context of an instrumented execution is).
 func AfterFunc(ctx context.Context, f func()) (stop func() bool) {
-	panic("vctx.AfterFunc is not modelled")
+	p := findParent(ctx)
+	if p == nil {
+		if ctx.Done() == nil {
+			return func() bool { return true } // never done: f never runs
+		}
+		panic("vctx.AfterFunc on a context that was not made under instrumentation")
+	}
+	a := &afterFn{f: f}
+	vsched.RaceRelease(unsafe.Pointer(&a.tok))
+	if p.err != nil {
+		a.run()
+		return func() bool { return false }
+	}
+	p.after = append(p.after, a)
+	return func() bool {
+		vsched.Yield("ctx.AfterFunc.stop")
+		if a.started || a.stopped {
+			return false
+		}
+		a.stopped = true
+		return true
+	}
+}
+
+type afterFn struct {
+	f                func()
+	started, stopped bool
+	tok              byte
+}
+
+//go:norace
+func (a *afterFn) run() {
+	if a.started || a.stopped {
+		return
+	}
+	a.started = true
+	vsched.Spawn(func() {
+		vsched.RaceAcquire(unsafe.Pointer(&a.tok))
+		a.f()
+	})
 }
 
 type cancelFire struct{ c *vc }
